@@ -254,6 +254,14 @@ impl TransactionManager {
                 continue;
             }
             if other_info.state == TxState::Committed {
+                // A writer that committed before we started is already part of
+                // our snapshot and cannot conflict with us
+                if committed
+                    .get(other_tx)
+                    .is_some_and(|epoch| epoch.as_u64() <= our_start_epoch.as_u64())
+                {
+                    continue;
+                }
                 // Check if any of our writes conflict with their writes
                 for entity in &our_write_set {
                     if other_info.write_set.contains(entity) {
